@@ -19,6 +19,7 @@ import (
 	"time"
 
 	"go.uber.org/zap"
+	"google.golang.org/grpc/codes"
 
 	"github.com/cosi-project/runtime/pkg/controller/runtime"
 	"github.com/cosi-project/runtime/pkg/controller/runtime/options"
@@ -279,7 +280,7 @@ func TestC14(t *testing.T) {
 			"view-log discipline. distinct = (labels, term) pair or (selector, history) hash; non-trivial = the term is inverted or a comparison with an undefined operand, or the history moved a " +
 			"resource into and out of the selector")
 		c.Assume("magnitudes overflowing int64 after the unit multiplier and unit suffixes with trailing garbage are not generated (unspecified)")
-		c.Require("term_evaluations", "undefined_comparisons", "inverted_terms", "empty_value_terms", "list_comparisons", "cache_comparisons", "remote_comparisons", "view_events_checked", "moved_into_view", "moved_out_of_view")
+		c.Require("term_evaluations", "undefined_comparisons", "inverted_terms", "empty_value_terms", "list_comparisons", "cache_comparisons", "remote_comparisons", "view_events_checked", "moved_into_view", "moved_out_of_view", "remote_transport_faults_hit")
 
 		// (a) term level
 		rng := c.Rand(1)
@@ -364,9 +365,10 @@ type view struct {
 	ch     chan state.Event
 	agg    chan []state.Event
 	items  map[string]uint64 // id -> version
-	boot   bool
-	booted bool
-	dead   bool
+	boot    bool
+	booted  bool
+	dead    bool
+	faulted bool
 }
 
 func history(c *vk.C, rng *rand.Rand, k int) {
@@ -405,8 +407,9 @@ func history(c *vk.C, rng *rand.Rand, k int) {
 	sels := []selector{genSelector(rng), genSelector(rng), genSelector(rng), genSelector(rng)}
 
 	var (
-		views []*view
-		trace []string
+		views   []*view
+		trace   []string
+		faulted int
 	)
 
 	write := func(n int) {
@@ -447,6 +450,14 @@ func history(c *vk.C, rng *rand.Rand, k int) {
 
 				if strings.HasPrefix(flavour, "remote") {
 					st = remote
+
+					// half of the remote views lose their transport once, a few messages in, and must resume as the SAME filtered view
+					if rng.IntN(2) == 0 {
+						cli.FailRecv(cli.Streams(), 2+rng.IntN(5), codes.Unavailable)
+
+						faulted++
+						v.faulted = true
+					}
 				}
 
 				if strings.HasSuffix(flavour, "agg") {
@@ -497,6 +508,12 @@ func history(c *vk.C, rng *rand.Rand, k int) {
 			v.booted = true
 		case state.Noop:
 		case state.Errored:
+			if v.faulted {
+				v.dead = true // a watch that lost its transport may legitimately end in Errored (no bookmark yet, ...): judged by C13
+
+				return
+			}
+
 			fail("filtered-watch-errored", "%v", ev.Error)
 		case state.Created:
 			id := ev.Resource.Metadata().ID()
@@ -559,7 +576,7 @@ func history(c *vk.C, rng *rand.Rand, k int) {
 
 	check := func(stage string) {
 		synctest.Wait()
-		time.Sleep(time.Second)
+		time.Sleep(5 * time.Second) // long enough for a client-side watch retry (back-off 0.5 s and up)
 		synctest.Wait()
 
 		for _, v := range views {
@@ -659,6 +676,8 @@ func history(c *vk.C, rng *rand.Rand, k int) {
 		c.Violation("server-handler-panicked", map[string]any{"method": p.Method, "panic": p.Value, "stack": p.Stack})
 	}
 
+	c.Count("remote_views_with_transport_fault", faulted)
+	c.Count("remote_transport_faults_hit", len(cli.FailHits()))
 	c.Count("view_events_checked", viewEvents)
 	c.Count("moved_into_view", movedIn)
 	c.Count("moved_out_of_view", movedOut)
